@@ -1,0 +1,86 @@
+//go:build verif
+
+// Contracts for package storage, read by /verif/govc (contract-based deductive verification).
+// This file contains comments only and is compiled only under the build tag "verif".
+package storage
+
+//@ spec const maxValue = 400
+//@ spec const maxLeaf = 9
+//@ spec const maxInternal = 290
+
+//@ spec func cnt(n *btreeNode) int { len(n.offsets) }
+//@ spec func lc(n *btreeNode, i int) *leafCell { n.leafCells[n.offsets[i]] }
+//@ spec func ic(n *btreeNode, i int) *internalCell { n.internalCells[n.offsets[i]] }
+//@ spec func key(n *btreeNode, i int) uint32 { n.isLeaf ? lc(n,i).key : ic(n,i).key }
+//@ spec func cellsLen(n *btreeNode) int { n.isLeaf ? len(n.leafCells) : len(n.internalCells) }
+//@ spec pred slotsOK(n *btreeNode) {
+//@     (forall i int :: 0 <= i && i < cnt(n) ==>
+//@         n.offsets[i] < cellsLen(n) && (n.isLeaf ? lc(n,i) != nil : ic(n,i) != nil)) }
+//@ spec pred sortedKeys(n *btreeNode) { forall i, j int :: 0 <= i && i < j && j < cnt(n) ==> key(n,i) < key(n,j) }
+
+//@ func checkRowSizeLimit(value []byte) error
+//@   props C08 C14
+//@   pure
+//@   ensures (result == nil) <==> len(value) <= maxValue
+//@   ensures result != nil ==> result == ErrRowTooLarge
+
+//@ func (n *btreeNode) cellKey(offset uint16) uint32
+//@   props C01 C11
+//@   pure
+//@   requires offset < cellsLen(n)
+//@   requires n.isLeaf ? n.leafCells[offset] != nil : n.internalCells[offset] != nil
+//@   ensures result == (n.isLeaf ? n.leafCells[offset].key : n.internalCells[offset].key)
+
+//@ func (n *btreeNode) isFull() bool
+//@   props C11
+//@   pure
+//@   ensures result <==> (n.isLeaf ? cnt(n) >= maxLeaf : cnt(n) >= maxInternal)
+
+//@ func (n *btreeNode) findCellOffsetByKey(key uint32) (offset int, found bool)
+//@   props C01 C11
+//@   pure
+//@   requires slotsOK(n) && sortedKeys(n)
+//@   ensures found ==> 0 <= offset && offset < cnt(n) && key(n, offset) == key
+//@   ensures !found ==> 0 <= offset && offset <= cnt(n)
+//@   ensures !found ==> forall i int :: 0 <= i && i < offset ==> key(n,i) < key
+//@   ensures !found ==> forall i int :: offset <= i && i < cnt(n) ==> key(n,i) > key
+//@   loop 1 invariant 0 <= low && low <= high+1 && high < cnt(n)
+//@   loop 1 invariant forall i int :: 0 <= i && i < low ==> key(n,i) < key
+//@   loop 1 invariant forall i int :: high < i && i < cnt(n) ==> key(n,i) > key
+//@   loop 1 decreases high - low + 1
+
+//@ spec pred identity(n *btreeNode) { forall i int :: 0 <= i && i < cnt(n) ==> n.offsets[i] == i }
+//@ spec pred compact(n *btreeNode) { identity(n) && cnt(n) == cellsLen(n) }
+//@ spec pred distinctOffsets(n *btreeNode) { forall i, j int :: 0 <= i && i < j && j < cnt(n) ==> n.offsets[i] != n.offsets[j] }
+
+//@ func (n *btreeNode) appendLeafCell(key uint32, value []byte) error
+//@   props C01 C11
+//@   requires n.isLeaf && slotsOK(n) && compact(n) && cnt(n) < 65535 && len(value) <= 4294967295
+//@   modifies n.offsets, n.leafCells, elems(n.offsets), elems(n.leafCells)
+//@   ensures result == nil && cnt(n) == old(cnt(n)) + 1 && compact(n) && slotsOK(n)
+//@   ensures[cells.kept] forall i int :: 0 <= i && i < old(cnt(n)) ==> lc(n,i) == old(lc(n,i))
+//@   ensures[cell.new] fresh(lc(n, old(cnt(n)))) && lc(n, old(cnt(n))).key == key && lc(n, old(cnt(n))).valueBytes == value
+//@   ensures[cell.new.size] lc(n, old(cnt(n))).valueSize == len(value) && !lc(n, old(cnt(n))).deleted
+
+//@ func (n *btreeNode) appendInternalCell(key uint32, fileOffset uint64) error
+//@   props C01 C11
+//@   requires !n.isLeaf && slotsOK(n) && compact(n) && cnt(n) < 65535
+//@   modifies n.offsets, n.internalCells, elems(n.offsets), elems(n.internalCells)
+//@   ensures result == nil && cnt(n) == old(cnt(n)) + 1 && compact(n) && slotsOK(n)
+//@   ensures[cells.kept] forall i int :: 0 <= i && i < old(cnt(n)) ==> ic(n,i) == old(ic(n,i))
+//@   ensures[cell.new] fresh(ic(n, old(cnt(n)))) && ic(n, old(cnt(n))).key == key && ic(n, old(cnt(n))).fileOffset == fileOffset
+
+//@ func (n *btreeNode) insertLeafCell(offset uint32, key uint32, value []byte) error
+//@   props C01 C08 C11 C14
+//@   requires n.isLeaf && slotsOK(n) && offset <= cnt(n) && len(n.leafCells) < 65535 && cnt(n) < 65535
+//@   modifies n.offsets, n.leafCells, elems(n.offsets), elems(n.leafCells)
+//@   ensures[err.iff] (result != nil) <==> len(value) > maxValue
+//@   ensures[err.value] result != nil ==> result == ErrRowTooLarge
+//@   ensures[err.frame] result != nil ==> n.offsets == old(n.offsets) && n.leafCells == old(n.leafCells) &&
+//@              (forall i int :: 0 <= i && i < cnt(n) ==> n.offsets[i] == old(n.offsets[i]))
+//@   ensures[ok.count] result == nil ==> cnt(n) == old(cnt(n)) + 1 && len(n.leafCells) == old(len(n.leafCells)) + 1 && slotsOK(n)
+//@   ensures[ok.before] result == nil ==> forall i int :: 0 <= i && i < offset ==> lc(n,i) == old(lc(n,i))
+//@   ensures[ok.after] result == nil ==> forall i int :: offset < i && i < cnt(n) ==> lc(n,i) == old(lc(n,i-1))
+//@   ensures[ok.new] result == nil ==> fresh(lc(n,offset)) && lc(n,offset).key == key && lc(n,offset).valueBytes == value &&
+//@              lc(n,offset).valueSize == len(value) && !lc(n,offset).deleted
+//@   ensures[ok.compact] result == nil && old(compact(n)) && offset == old(cnt(n)) ==> compact(n)
